@@ -102,6 +102,11 @@ func sharedConsumerGrammar(r *Rand) *Grammar {
 		alts = append(alts, a)
 	}
 	m := add(GNode{Op: "any", Kids: alts, Memo: true})
+	if r.Chance(1, 4) {
+		// a memoised parser with MANY alternatives (Fibonacci growth: 5, 8, 13, 21, 34, 55, 89
+		// results on a^4..a^10): list sizes around allocator size classes
+		m = add(GNode{Op: "many1", Kids: []int{add(GNode{Op: "any", Kids: []int{add(GNode{Op: "op", Arg: "a"}), add(GNode{Op: "op", Arg: "aa"})}})}, Memo: true})
+	}
 	consumer := func() int {
 		x := add(GNode{Op: "op", Arg: lits[r.Intn(len(lits))]})
 		switch r.Intn(5) {
@@ -213,6 +218,9 @@ func (*c03Prop) Gen(r *Rand, pl *Plan) Case {
 		c.Input = []string{"abcd", "abcda", "ab", "abc", "abcabcd", "aabcd", "babcd"}[r.Intn(7)]
 		if r.Chance(1, 3) {
 			c.Input = c.G.genInput(r, alphabet, 10)
+		}
+		if hasOp(c.G, "many1") {
+			c.Input = strings.Repeat("a", r.Range(4, 10)) + []string{"", "d", "b"}[r.Intn(3)]
 		}
 	} else {
 		c.G = genGrammar(r, &genOpts{MaxNodes: r.Range(3, size), Alphabet: alphabet, Trims: r.Chance(2, 3), MemoChance: r.Range(15, 70), Names: r.Chance(1, 2), Rich: r.Chance(1, 5)})
